@@ -46,7 +46,9 @@ PollOutcome(c) ==
               ELSE IF cfg.strat = "fromerr" THEN [res |-> "ok", val |-> 7200 + x, rq |-> g]
               ELSE IF cfg.strat = "fromreq" THEN [res |-> "ok", val |-> 7300 + x, rq |-> 1000 * c + g]
               ELSE IF cfg.strat = "service" THEN (IF cfg.bk = "ok" THEN [res |-> "ok", val |-> 7400, rq |-> c]
-                                                  ELSE [res |-> "err", kind |-> "fbfailed74", val |-> c])
+                                                  \* the backup's own error (code 74, or 2 for bk = "err2": one the handle predicate would refuse) is
+                                                  \* reported as a failed fallback whatever the predicate thinks of it
+                                                  ELSE [res |-> "err", kind |-> (IF cfg.bk = "err2" THEN "fbfailed2" ELSE "fbfailed74"), val |-> c])
               ELSE InnerErr(x + 50, g)                                                      \* exception: transformed error
      IN /\ vfn' = (IF useVfn THEN vfn + 1 ELSE vfn) /\ bkcalls' = (IF useBk THEN bkcalls + 1 ELSE bkcalls)
         /\ ev' = r @@ [e |-> "poll", c |-> c, ns |-> 0, nd |-> 1] @@ Obs(IF useVfn THEN vfn + 1 ELSE vfn, IF useBk THEN bkcalls + 1 ELSE bkcalls)
